@@ -32,7 +32,6 @@ import (
 
 	"github.com/fabiolb/fabio/config"
 	"github.com/fabiolb/fabio/internal/verifx"
-	"github.com/fabiolb/fabio/logger"
 	"github.com/fabiolb/fabio/noroute"
 	"github.com/fabiolb/fabio/route"
 )
@@ -94,10 +93,14 @@ type cvxReq struct {
 	AccessLog bool              `json:"accesslog"` // an access logger is configured
 	Hist      []cvxHistReq      `json:"hist"`      // C13 histories: the requests sent through the route one after the other
 	HostLabel string            `json:"hostlabel"` // first label of the requested host ("a" by default)
+	Together  bool              `json:"together"`  // the requests of hist arrive simultaneously at a proxy that has served no redirect yet
+	PageHist  []string          `json:"pagehist"`  // no-route pages the registry delivers before the request ("" = page removed)
+	Flip      []string          `json:"flip"`      // no-route pages the registry alternates between while the request is answered
 }
 
 type cvxHistReq struct {
 	Host  string   `json:"host"`
+	RHost string   `json:"rhost"`
 	Path  []string `json:"path"`
 	Query []string `json:"query"`
 }
@@ -122,6 +125,7 @@ type cvxOut struct {
 	Kind   string    `json:"kind"`
 	Status int       `json:"status"`
 	Page   string    `json:"page"`
+	Pages  []string  `json:"pages"` // no route: every page that was configured at some moment while the request was there
 	Loc    cvxLoc    `json:"loc"`
 	Resp   string    `json:"resp"`
 	STS    cvxHdrExp `json:"sts"`
@@ -145,9 +149,12 @@ type cvxCase struct {
 	Att  *cvxAtt `json:"att,omitempty"`
 	// C13 histories: the Location each request of c.hist must be answered with
 	Answers []cvxLoc `json:"answers,omitempty"`
+	// C08 connection histories: what the upstream must be told about port and host for each request of c.hist
+	Conn []map[string]cvxHdrExp `json:"conn,omitempty"`
 
 	parent *cvxCase // set on the per-request copies of a history case
 	step   int
+	fresh  int64 // != 0: the case gets a proxy of its own
 }
 
 // ---------------------------------------------------------------- concretisation of tokens
@@ -165,6 +172,7 @@ const (
 	cvxSTSValue      = "max-age=31536000; includeSubdomains"
 	cvxNamedHost     = "name.example"
 	cvxPageHTML      = "<html><body>no route here</body></html>\n"
+	cvxPage2HTML     = "<html><head><title>no such route</title></head><body><h1>no route</h1><p>the second, longer page: nothing is served under this address, please check the spelling of the host name and of the path.</p></body></html>\n"
 	cvxReqPort       = "8080"
 )
 
@@ -176,6 +184,28 @@ var cvxManagedName = map[string]string{
 var cvxManagedOrder = []string{"clientip", "xff", "xrealip", "tlshdr", "xfproto", "forwarded", "xfport", "xfhost"}
 
 func cvxJoin(toks []string) string { return strings.Join(toks, "") }
+
+// cvxPage: the bytes of a no-route page token ("" = no page, "page", "page2" = a longer one)
+func cvxPage(tok string) string {
+	switch tok {
+	case "page":
+		return cvxPageHTML
+	case "page2":
+		return cvxPage2HTML
+	}
+	return ""
+}
+
+// The wiring of the code under test is supplied by the package the harness is compiled into (package proxy:
+// common_wire_test.go, package main: c07_main_test.go):
+var (
+	// cvxMakeProxy builds the HTTP proxy handler the way main does (route.GetTable().Lookup, metrics handlers set)
+	cvxMakeProxy func(w *cvxWorld, cfg config.Proxy, accessLog bool) http.Handler
+	// cvxListen serves h on one of fabio's own listeners (proxy.ListenAndServeHTTP); stop closes it
+	cvxListen func(addr string, h http.Handler, tc *tls.Config) (stop func(), err error)
+	// cvxDeliverPage hands a no-route page to fabio the way the registry does and returns when it is in effect
+	cvxDeliverPage func(page string) error
+)
 
 // cvxOpt renders the text of a route option (strip=, prepend=, source path): plain text, the
 // token U+F6 stands for the letter o-umlaut.
@@ -630,13 +660,16 @@ type cvxCfgKey struct {
 	ip, tlshdr, sts bool
 	nr              int
 	tls             bool
-	log             bool // an access logger is configured
-	odd             bool // header names configured in non-canonical spelling
-	v6              bool // the front listens on ::1
+	log             bool  // an access logger is configured
+	odd             bool  // header names configured in non-canonical spelling
+	v6              bool  // the front listens on ::1
+	real            bool  // one of fabio's own listeners (proxy.ListenAndServeHTTP) instead of net/http/httptest
+	fresh           int64 // != 0: a proxy of its own for this case (it has served nothing before)
 }
 
 type cvxFront struct {
-	srv  *httptest.Server
+	srv  *httptest.Server // nil for one of fabio's own listeners
+	stop func()
 	addr string
 }
 
@@ -660,6 +693,8 @@ type cvxWorld struct {
 	errs     int64
 	retries  int64
 	noV6     bool // ::1 cannot be listened on: IPv6 cases are skipped (and counted)
+	certOnce sync.Once
+	certs    []tls.Certificate
 }
 
 func cvxNewWorld() *cvxWorld {
@@ -707,7 +742,11 @@ func (w *cvxWorld) close() {
 	w.client.CloseIdleConnections()
 	w.fmu.Lock()
 	for _, f := range w.fronts {
-		f.srv.Close()
+		if f.srv != nil {
+			f.srv.Close()
+		} else if f.stop != nil {
+			f.stop()
+		}
 	}
 	w.fmu.Unlock()
 	w.upTr.CloseIdleConnections()
@@ -891,43 +930,56 @@ func (w *cvxWorld) front(k cvxCfgKey) *cvxFront {
 	if k.sts {
 		cfg.STSHeader = config.STSHeader{MaxAge: cvxSTSMaxAge, Subdomains: true}
 	}
-	// as in main.newHTTPProxy
-	pick := route.Picker["rnd"]
-	match := route.Matcher["prefix"]
-	gc := route.NewGlobCache(4096)
-	p := &HTTPProxy{
-		Config:            cfg,
-		Transport:         w.upTr,
-		InsecureTransport: w.upTr,
-		Lookup: func(r *http.Request) *route.Target {
-			return route.GetTable().Lookup(r, r.Header.Get("trace"), pick, match, gc, false)
-		},
-	}
-	if k.log {
-		if l, err := logger.New(io.Discard, logger.CombinedFormat); err == nil {
-			p.Logger = l
+	p := cvxMakeProxy(w, cfg, k.log)
+	var f *cvxFront
+	if k.real {
+		// fabio's own listener; its registry of servers is keyed by the configured address: an explicit free port
+		var tc *tls.Config
+		if k.tls {
+			tc = &tls.Config{Certificates: w.tlsCerts()}
 		}
-	}
-	srv := httptest.NewUnstartedServer(p)
-	if k.v6 {
-		l, err := net.Listen("tcp6", "[::1]:0")
-		if err != nil {
-			w.noV6 = true
-			srv.Listener.Close()
+		var err error
+		for try := 0; try < 20 && f == nil; try++ {
+			l, lerr := net.Listen("tcp", "127.0.0.1:0")
+			if lerr != nil {
+				err = lerr
+				continue
+			}
+			addr := l.Addr().String()
+			l.Close()
+			stop, serr := cvxListen(addr, p, tc)
+			if serr != nil {
+				err = serr
+				continue
+			}
+			f = &cvxFront{stop: stop, addr: addr}
+		}
+		if f == nil {
+			w.errorf("cannot start one of fabio's own listeners: %v", err)
 			return nil
 		}
-		srv.Listener.Close()
-		srv.Listener = l
-	}
-	if os.Getenv("VERIF_LOG") == "" {
-		srv.Config.ErrorLog = log.New(io.Discard, "", 0)
-	}
-	if k.tls {
-		srv.StartTLS()
 	} else {
-		srv.Start()
+		srv := httptest.NewUnstartedServer(p)
+		if k.v6 {
+			l, err := net.Listen("tcp6", "[::1]:0")
+			if err != nil {
+				w.noV6 = true
+				srv.Listener.Close()
+				return nil
+			}
+			srv.Listener.Close()
+			srv.Listener = l
+		}
+		if os.Getenv("VERIF_LOG") == "" {
+			srv.Config.ErrorLog = log.New(io.Discard, "", 0)
+		}
+		if k.tls {
+			srv.StartTLS()
+		} else {
+			srv.Start()
+		}
+		f = &cvxFront{srv: srv, addr: srv.Listener.Addr().String()}
 	}
-	f := &cvxFront{srv: srv, addr: srv.Listener.Addr().String()}
 	w.fronts[k] = f
 	// The glob cache of fabio is filled on first use and that path is not safe for concurrent
 	// use (property C06's subject, not ours): fill it with one request before the parallel phase.
@@ -945,9 +997,21 @@ func (w *cvxWorld) front(k cvxCfgKey) *cvxFront {
 	return f
 }
 
+// tlsCerts: the certificate of net/http/httptest, for fabio's own TLS listeners
+func (w *cvxWorld) tlsCerts() []tls.Certificate {
+	w.certOnce.Do(func() {
+		ts := httptest.NewUnstartedServer(http.NotFoundHandler())
+		ts.StartTLS()
+		w.certs = append([]tls.Certificate(nil), ts.TLS.Certificates...)
+		ts.Close()
+	})
+	return w.certs
+}
+
 func cvxFrontKey(cs *cvxCase) cvxCfgKey {
 	return cvxCfgKey{ip: cs.C.CfgIP, tlshdr: cs.C.CfgTLS, sts: cs.C.CfgSTS, nr: cs.C.NRStatus, tls: cs.C.TLS,
-		odd: cs.C.CfgSpell == "odd", v6: cs.C.Peer == "v6", log: cs.C.AccessLog}
+		odd: cs.C.CfgSpell == "odd", v6: cs.C.Peer == "v6", log: cs.C.AccessLog,
+		real: cs.C.Sub == "conn" || cs.C.Together, fresh: cs.fresh}
 }
 
 // ---------------------------------------------------------------- the client side
@@ -1356,7 +1420,53 @@ func cvxRewriteClass(r *cvxRoute, path []string) string {
 
 // ---------------------------------------------------------------- runner
 
+// cvxOpenConn opens a client connection to the front of the case (nothing is sent yet).
+func (w *cvxWorld) cvxOpenConn(cs *cvxCase) (net.Conn, error) {
+	f := w.front(cvxFrontKey(cs))
+	if f == nil {
+		return nil, errors.New("harness: no front")
+	}
+	if cs.C.TLS {
+		return tls.Dial("tcp", f.addr, &tls.Config{InsecureSkipVerify: true})
+	}
+	return net.Dial("tcp", f.addr)
+}
+
+// cvxRawGet sends the case's request (no body) over an open connection and reads the answer.
+func cvxRawGet(conn net.Conn, br *bufio.Reader, cs *cvxCase, id int64) (*cvxGot, error) {
+	conn.SetDeadline(time.Now().Add(60 * time.Second)) // safety net only
+	rawPath, rawQuery := cvxRawTarget(cs)
+	target := rawPath
+	if rawQuery != "" {
+		target += "?" + rawQuery
+	}
+	var b bytes.Buffer
+	fmt.Fprintf(&b, "%s %s HTTP/1.1\r\nHost: %s\r\n", cs.C.Method, target, cvxReqHost(cs))
+	for _, l := range cvxWireHeaders(cs, id) {
+		for _, v := range l.Vals {
+			fmt.Fprintf(&b, "%s: %s\r\n", l.Name, v)
+		}
+	}
+	b.WriteString("\r\n")
+	if _, err := conn.Write(b.Bytes()); err != nil {
+		return nil, err
+	}
+	resp, err := http.ReadResponse(br, nil)
+	if err != nil {
+		return nil, fmt.Errorf("reading the answer: %v", err)
+	}
+	g := &cvxGot{Status: resp.StatusCode, Header: resp.Header}
+	var head bytes.Buffer
+	n, err := io.Copy(&cvxHead{b: &head, max: 4096}, resp.Body)
+	if err != nil {
+		return nil, fmt.Errorf("reading the answer: %v", err)
+	}
+	g.BodyLen, g.Body = n, head.Bytes()
+	return g, nil
+}
+
 type cvxJob struct {
+	do  func() (*cvxGot, int64, error) // != nil: how the exchange of this job is carried out
 	cs  *cvxCase
 	id  int64
 	raw uint64
@@ -1377,6 +1487,43 @@ func cvxDecode(raw []byte) (*cvxCase, error) {
 	return cs, nil
 }
 
+// cvxPhase: which cases may be replayed at the same time (see run)
+func cvxPhase(cs *cvxCase) string {
+	switch {
+	case len(cs.C.PageHist) > 0:
+		return "pagehist"
+	case len(cs.C.Flip) > 0:
+		return "flip:" + strings.Join(cs.C.Flip, ",")
+	}
+	return "page:" + cs.C.NRPage
+}
+
+// cvxFlipRepeats: how often a request is repeated while the page changes
+func cvxFlipRepeats() int {
+	if verifx.Thorough() {
+		return 400
+	}
+	return 120
+}
+
+// cvxFlipper replaces the no-route page over and over, the way the registry watcher does it (noroute.SetHTML),
+// until stop is called.
+func cvxFlipper(pages []string) (stop func()) {
+	var done int32
+	var wg sync.WaitGroup
+	wg.Add(1)
+	go func() {
+		defer wg.Done()
+		for atomic.LoadInt32(&done) == 0 {
+			for _, p := range pages {
+				noroute.SetHTML(cvxPage(p))
+			}
+			runtime.Gosched()
+		}
+	}()
+	return func() { atomic.StoreInt32(&done, 1); wg.Wait() }
+}
+
 func (rn *cvxRunner) run(t *testing.T) {
 	seed := verifx.Seed()
 	w := cvxNewWorld()
@@ -1385,7 +1532,7 @@ func (rn *cvxRunner) run(t *testing.T) {
 	// pass 1: routes of all cases -> one table
 	cmdset := map[string]bool{}
 	seenKey := map[string]bool{}
-	pages := map[string]bool{}
+	phases := map[string]bool{}
 	var total int64
 	err := verifx.EachCase("", func(raw []byte) error {
 		cs, err := cvxDecode(raw)
@@ -1393,14 +1540,20 @@ func (rn *cvxRunner) run(t *testing.T) {
 			return fmt.Errorf("bad case: %v", err)
 		}
 		total++
-		pages[cs.C.NRPage] = true
+		phases[cvxPhase(cs)] = true
 		key := cvxRouteKey(cs.C.Routes)
-		if seenKey[key+"/"+cs.C.RHost] {
-			return nil
+		rhosts := []string{cs.C.RHost}
+		for _, h := range cs.C.Hist {
+			rhosts = append(rhosts, h.RHost)
 		}
-		seenKey[key+"/"+cs.C.RHost] = true
-		for _, c := range cvxRouteCmds(key, cs.C.RHost, cs.C.Routes, w.upAddr) {
-			cmdset[c] = true
+		for _, rh := range rhosts {
+			if seenKey[key+"/"+rh] {
+				continue
+			}
+			seenKey[key+"/"+rh] = true
+			for _, c := range cvxRouteCmds(key, rh, cs.C.Routes, w.upAddr) {
+				cmdset[c] = true
+			}
 		}
 		return nil
 	})
@@ -1432,17 +1585,21 @@ func (rn *cvxRunner) run(t *testing.T) {
 		workers = n
 	}
 
-	var pageList []string
-	for p := range pages {
-		pageList = append(pageList, p)
+	var phaseList []string
+	for p := range phases {
+		phaseList = append(phaseList, p)
 	}
-	sort.Strings(pageList)
-	for _, page := range pageList {
-		// the no-route page is process-wide state of package noroute: one value at a time
-		if page == "" {
-			noroute.SetHTML("")
-		} else {
-			noroute.SetHTML(cvxPageHTML)
+	sort.Strings(phaseList)
+	for _, phase := range phaseList {
+		// the no-route page is process-wide state of package noroute: the cases are replayed in phases, one for
+		// every fixed page, one for every set of pages the registry alternates between while requests are
+		// answered, and one (one case at a time) for the histories of registry operations
+		var stopFlip func()
+		switch {
+		case strings.HasPrefix(phase, "page:"):
+			noroute.SetHTML(cvxPage(strings.TrimPrefix(phase, "page:")))
+		case strings.HasPrefix(phase, "flip:"):
+			stopFlip = cvxFlipper(strings.Split(strings.TrimPrefix(phase, "flip:"), ","))
 		}
 		groups := make(chan []*cvxJob, 256)
 		var wg sync.WaitGroup
@@ -1487,8 +1644,11 @@ func (rn *cvxRunner) run(t *testing.T) {
 			if err != nil {
 				return err
 			}
-			if cs.C.NRPage != page {
+			if cvxPhase(cs) != phase {
 				return nil
+			}
+			if cs.C.Together {
+				cs.fresh = n
 			}
 			if cs.Att == nil {
 				cs.Att = cvxDefaultAtt(n, seed)
@@ -1497,6 +1657,10 @@ func (rn *cvxRunner) run(t *testing.T) {
 			// bring the proxies up before the parallel phase (see front())
 			if w.front(cvxFrontKey(cs)) == nil {
 				skippedV6++ // this machine has no ::1 to listen on: counted, not judged
+				return nil
+			}
+			if phase == "pagehist" {
+				serialGroups["pagehist"] = append(serialGroups["pagehist"], j)
 				return nil
 			}
 			if rn.serial != nil {
@@ -1513,6 +1677,9 @@ func (rn *cvxRunner) run(t *testing.T) {
 		}
 		close(groups)
 		wg.Wait()
+		if stopFlip != nil {
+			stopFlip()
+		}
 		if err != nil {
 			t.Fatal(err)
 		}
